@@ -11,6 +11,7 @@ import (
 	"verif/explore"
 
 	"github.com/buildbuildio/pebbles/common"
+	"github.com/buildbuildio/pebbles/gqlerrors"
 	"github.com/buildbuildio/pebbles/vrt"
 )
 
@@ -100,6 +101,128 @@ func c20HarnessMsg(n, errMask int, sameMsg bool) explore.Harness {
 			}
 			v := c20Verdict(n, errMask, s, o)
 			return v, v
+		}
+		return body, check
+	}
+}
+
+// c20HarnessPtr: results of a nillable type; items in nilMask succeed with a nil result (which is a
+// result like any other: reduce is applied to it), items in errMask fail.
+func c20HarnessPtr(n, errMask, nilMask int) explore.Harness {
+	return func() (func(), func(*vrt.Sched) (string, string)) {
+		reduceCalls, nilSeen, returned := 0, 0, false
+		var errs []string
+		body := func() {
+			items := make([]int, n)
+			for i := range items {
+				items[i] = i
+			}
+			_, es := common.AsyncMapReduce(items, 0, func(i int) (*int, error) {
+				vrt.Touch("map")
+				switch {
+				case errMask&(1<<i) != 0:
+					return nil, errors.New("e" + strconv.Itoa(i))
+				case nilMask&(1<<i) != 0:
+					return nil, nil
+				}
+				v := i
+				return &v, nil
+			}, func(acc int, v *int) int {
+				vrt.Touch("reducer")
+				reduceCalls++
+				if v == nil {
+					nilSeen++
+				}
+				return acc + 1
+			})
+			for _, e := range es {
+				errs = append(errs, e.Message)
+			}
+			returned = true
+		}
+		check := func(s *vrt.Sched) (string, string) {
+			if s.Fatal != "" {
+				return "FATAL " + s.Fatal + " in " + roleOf(s.FatalG), ""
+			}
+			if !returned {
+				return "DEADLOCK caller never returned; stuck=" + strings.Join(s.Stuck, ","), ""
+			}
+			succ, nils, fails := 0, 0, 0
+			for i := 0; i < n; i++ {
+				switch {
+				case errMask&(1<<i) != 0:
+					fails++
+				case nilMask&(1<<i) != 0:
+					succ++
+					nils++
+				default:
+					succ++
+				}
+			}
+			if reduceCalls != succ || nilSeen != nils {
+				v := fmt.Sprintf("reduce applied to %d of %d successful results (%d of %d nil results)", reduceCalls, succ, nilSeen, nils)
+				return v, v
+			}
+			if len(errs) != fails {
+				v := fmt.Sprintf("%d items failed, %d errors returned", fails, len(errs))
+				return v, v
+			}
+			return "", "ok"
+		}
+		return body, check
+	}
+}
+
+// c20HarnessStoredErrors: two calls one after the other; in each the first item fails with the same stored
+// gqlerrors.ErrorList value (one entry, spare capacity - what append leaves behind) and the second with an
+// error of its own. Each call returns exactly its two errors, and what a call returned does not change afterwards.
+func c20HarnessStoredErrors() explore.Harness {
+	return func() (func(), func(*vrt.Sched) (string, string)) {
+		var first, firstLater, second []string
+		returned := false
+		body := func() {
+			stored := append(make(gqlerrors.ErrorList, 0, 4), &gqlerrors.Error{Message: "stored"})
+			call := func(tag string) gqlerrors.ErrorList {
+				_, es := common.AsyncMapReduce([]int{0, 1}, 0, func(i int) (int, error) {
+					vrt.Touch("map")
+					if i == 0 {
+						return 0, stored
+					}
+					return 0, errors.New(tag)
+				}, func(acc int, v int) int { return acc + v })
+				return es
+			}
+			msgs := func(es gqlerrors.ErrorList) []string {
+				var out []string
+				for _, e := range es {
+					out = append(out, e.Message)
+				}
+				sortStrings(out)
+				return out
+			}
+			a := call("A1")
+			first = msgs(a)
+			b := call("B1")
+			second = msgs(b)
+			firstLater = msgs(a)
+			returned = true
+		}
+		check := func(s *vrt.Sched) (string, string) {
+			if s.Fatal != "" {
+				return "FATAL " + s.Fatal + " in " + roleOf(s.FatalG), ""
+			}
+			if !returned {
+				return "DEADLOCK caller never returned; stuck=" + strings.Join(s.Stuck, ","), ""
+			}
+			if strings.Join(first, ",") != "A1,stored" || strings.Join(second, ",") != "B1,stored" {
+				v := fmt.Sprintf("returned errors differ from the injected ones: first call %v, second call %v", first, second)
+				return v, v
+			}
+			if strings.Join(firstLater, ",") != strings.Join(first, ",") {
+				v := fmt.Sprintf("the errors the first call returned changed after the second call: %v -> %v", first, firstLater)
+				return v, v
+			}
+			return "", "ok"
 		}
 		return body, check
 	}
